@@ -23,12 +23,12 @@ CLAIMS = {
  'C14': ('other', 'X', 'T/F polarity, leaf declared <=> edge emitted for all filter x child kinds, child coverage and distinct labels for all 12 syntax-node kinds.', 'sibling-agreement rules over THIR matches'),
  'C15': ('proof', 'N+L', 'Affine loop-nest analysis symbolic in n: every constraint list is proved (Fourier-Motzkin on the loop bounds, polynomial normal form of the index) to be a whole row, column, diagonal or anti-diagonal with the right operator, and the families to cover all lines, for all n >= 1; plus the integer-width clause. Text-level well-formedness of the output is not decided.', 'polyhedral-style loop-nest analysis (polynomial normal form + Fourier-Motzkin) + MIR operand-type rule'),
  'C16': ('other', 'L', 'Complement-edge guard truth table vs specification, same-list provenance of both constraint copies, --all switch, vertex lists.', 'path-condition extraction + truth-table evaluation'),
+ 'C17': ('proof', 'U', 'Constraint-family analysis symbolic in root: every emitted list is proved (polynomial normal form of the cell index, div/mod digit lemma) to be a complete cell/row/column/box family, all four present; hint rule and whitespace stripping checked structurally. Modulo three arithmetic lemmas and the standard sudoku characterisation.', 'loop-nest / constraint-family analysis by polynomial normal forms'),
  'C18': ('other', 'L', 'Refuse-not-truncate shape of generate_graph, candidate guards, --complete edge-count polynomials, read_graph and colour-product guards as truth tables.', 'path-condition extraction, polynomial normal form, structural match'),
  'C19': ('other', 'S+E+G', 'Operation signatures on the tracked cell (incl. aliased operands), query purity (receiver-sensitive), no guard alive across a may-alias write.', 'engine S with tracked RefCell content + receiver-sensitive effect summary + guard regions'),
  'C20': ('proof', 'S+O', 'Per filter value, inductive proof of the implication direction over all child shapes; order obligations at the 3 mk_choice sites; support within support(f).', 'engine S with implication summaries per filter value'),
 }
 NA = {
- 'C17': 'model/grid correspondence of sudoku_gen is mixed-radix index arithmetic (lt + (l / root) * square + l % root) over all roots; no dataflow, typestate or shape rule decides it, and instantiating an extracted loop model at small roots would be a test wearing a static label; the only shape clauses (digit test on hints, whitespace stripped) are too thin to carry a claim',
 }
 SECTION = {p: 'section 4, %s' % p for p in CLAIMS}
 
@@ -62,7 +62,8 @@ m = {
   {'name': 'T', 'path': 'rules/engine_t.py', 'serves_properties': ['C01', 'C05', 'C06', 'C08', 'C10'], 'kind_free_text': 'table agreement, tokenizer regex structure'},
   {'name': 'A', 'path': 'rules/engine_a.py', 'serves_properties': ['C06', 'C08'], 'kind_free_text': 'parser error discipline, grammar equivalence, constructor provenance'},
   {'name': 'X', 'path': 'rules/engine_x.py', 'serves_properties': ['C07', 'C09', 'C10', 'C11', 'C12', 'C14'], 'kind_free_text': 'CLI/IO clauses'},
-  {'name': 'L', 'path': 'rules/engine_l.py', 'serves_properties': ['C15', 'C16', 'C18'], 'kind_free_text': 'generator guards'},
+  {'name': 'L', 'path': 'rules/engine_l.py', 'serves_properties': ['C15', 'C16', 'C17', 'C18'], 'kind_free_text': 'generator guards, integer width'},
+  {'name': 'N/U', 'path': 'rules/engine_n.py rules/engine_u.py', 'serves_properties': ['C15', 'C17'], 'kind_free_text': 'affine loop-nest and constraint-family analysis (polynomial normal forms, Fourier-Motzkin)'},
  ],
  'checks': checks,
  'not_applicable': [{'property_id': k, 'reason': v} for k, v in NA.items()],
